@@ -337,7 +337,9 @@ where
                 return affected_error(input);
             }
             // TODO: maybe dynamic affection range
-            let affected_range = this_range.start..(this_range.end + 1);
+            // The parsers look at up to two tokens behind a node
+            // (e.g. an identifier followed by `:=` or `(` ends an erroneous statement).
+            let affected_range = this_range.start..(this_range.end + 2);
             if input.token_change.overlaps(&affected_range) {
                 match inner_parser.parse(input.clone()) {
                     Ok(result) => Ok(result),
